@@ -108,6 +108,7 @@ type FuncSpec struct {
 	File      string
 	Line      int
 	NoHavoc   bool
+	NilReceiver bool // the method is meant to be callable on a nil receiver: no non-nil assumption
 	Reveal    []string
 	RelInline []string // callees executed inline in relational (two-run) mode
 	Inlines   []string // callees executed inline in this function's proof (their call events stay visible)
@@ -384,6 +385,8 @@ func (sp *Specs) parseFile(repo, file string) error {
 			for _, n := range splitList(rest) {
 				curF.RelInline = append(curF.RelInline, qualify(pkg, n))
 			}
+		case "nilreceiver":
+			curF.NilReceiver = true
 		case "implements":
 			curF.Implements = qualify(pkg, rest)
 		case "refines":
